@@ -207,10 +207,10 @@ func (s *sink) schedule(c Case, r *vh.Rng, thorough, verboseOut bool) {
 
 func (e *engine) runSchedules() {
 	r := e.rng
-	nDocs, nMut := 400, 400 // per format
+	nDocs, nMut := 200, 200 // per format
 	maxLen := 4096
 	if e.thorough {
-		nDocs, nMut = 4000, 4000
+		nDocs, nMut = 1500, 1500
 		maxLen = 16384
 	}
 	nDocs, nMut = nDocs*e.scale, nMut*e.scale
